@@ -74,3 +74,15 @@ Theorem C10_announcement_touches_only_its_session :
   (forall k, k <> tag s -> lookup k (detector_step now m msg) = lookup k m).
 Proof. exact step_add. Qed.
 Print Assumptions C10_announcement_touches_only_its_session.
+
+(* The same guarantee for every registration the public constructor NewRegistrationC2SWrapper
+   returns, whoever calls it and with whatever registrant bytes (the ingest path is one caller). *)
+Theorem C10_constructor_accepted_and_faithful :
+  forall w s addr v6 r o, sel_wf s -> new_reg w s addr v6 = Some r -> (o = ONew \/ o = OUpdate) ->
+  exists cl ph np,
+    ip_value (r_addr r) = Some cl /\ ip_value (r_phantom r) = Some ph /\ nproto_of (r_proto r) = Some np /\
+    handle_s2d (announce r o) =
+      DAdd {| s_client := cl; s_phantom := ph; s_dst := r_port r; s_src := 0; s_proto := np;
+              s_timeout := station_lifetime (used_after o) |}.
+Proof. exact constructor_accepted_and_faithful. Qed.
+Print Assumptions C10_constructor_accepted_and_faithful.
